@@ -244,6 +244,7 @@ def render(v):
               "hashLen", "dhLen", "nonceOffset", "lastFlagValue"):
         A(f"def {k} : Nat := {v[k]}")
     A(f'def protocolName : String := "{v["protocolName"]}"')
+    A(f'def protocolNameBytes : Bytes := {lean_bytes(list(v["protocolName"].encode()))}')
     A("inductive Token | E | S | EE | ES | SE | SS")
     A("deriving DecidableEq, Repr")
     A("def tokenPattern : List Token := [" + ", ".join("." + t for t in v["tokenPattern"]) + "]")
